@@ -24,6 +24,8 @@ def run(tier: str) -> Report:
     rep = Report(PROP)
     ncases, max_points = QUICK if tier == 'quick' else THOROUGH
     jobs = [(PROP, i, PARTS, max_points) for i in range(ncases)]
+    # a second family: imports from another container with small pack targets and cache budgets that force several flushes
+    jobs += [(PROP, i, PARTS, max_points, 'import') for i in range(28 if tier == 'quick' else ncases // 3)]
     ctx = mp.get_context('fork')
     with ctx.Pool(processes=min(14, os.cpu_count() or 4)) as pool:
         results = pool.map(crashlab.run_lab, jobs, chunksize=1)
@@ -62,7 +64,7 @@ def replay(path: str) -> int:
         return 2
     os.environ['VERIF_SEED'] = str(rp.get('seed', 0))
     common.build_lean()
-    r = crashlab.run_lab((PROP, rp['case_id'], tuple(rp.get('parts', PARTS)), 100000))
+    r = crashlab.run_lab((PROP, rp['case_id'], tuple(rp.get('parts', PARTS)), 100000, rp.get('focus', '')))
     for f in r['failures']:
         print('FAIL', f['text'])
     for b in r['breaks']:
